@@ -199,6 +199,11 @@ class _MetaAbstractArray(type):
             # numpy structured array is strictly a subtype of np.void
             if _dtype_is_numpy_struct_array(obj.dtype):
                 dtype = str(obj.dtype)
+            elif getattr(obj.dtype, "kind", None) in ("i", "u"):
+                # The scalar type of a platform-dependent alias has its own name, e.g.
+                # `np.dtype("longlong").type.__name__ == "longlong"` even where this is
+                # the very same dtype as `int64`. Use the canonical sized name.
+                dtype = obj.dtype.name
         elif hasattr(obj.dtype, "as_numpy_dtype"):
             # TensorFlow
             dtype = obj.dtype.as_numpy_dtype.__name__
